@@ -68,3 +68,9 @@ func init() { engines["PAIR"] = enginePAIR }
 func init() { engines["REC"] = engineREC }
 
 func init() { engines["REG"] = engineREG }
+
+func init() { engines["IX"] = engineIX }
+
+func init() { engines["TA"] = engineTA }
+
+func init() { engines["ED"] = engineED }
